@@ -242,11 +242,19 @@ Acts == \/ \E k \in SubOps : Subscribe(k) \/ Accept(k) \/ AcceptInsert(k) \/ Rej
         \/ \E c \in Conns : ConnClose(c) \/ WriterSend(c)
 (* one replay case per TRANSITION: the (shortest, via the VIEW) call sequence reaching the pre-state plus this call, with *)
 (* the spec's observable projection of the post-state                                                                  *)
+(* C04's serialised replay (MC_ServerSubs_wire.cfg): the driver takes a step only when every connection's writer has drained   *)
+(* its queue, and a send that has passed its closed-check is completed before anything else happens - then the frames a peer      *)
+(* receives are exactly the messages enqueued for its connection, in order.                                                     *)
+Drained == \A c \in Conns : queue[c] = <<>>
+SerialSteps == /\ (path' # path => Drained)
+               /\ ((\E k \in SubOps : sub[k].chk = "passed") => \E k \in SubOps : sub[k].chk = "passed" /\ sub'[k].chk = "none")
 ClosedP(k) == sub'[k].unsub \/ ~open'[ConnOf[k]] \/ (k \notin table' /\ sub'[k].st = "accepted")
 EmitT == (EmitCases /\ path' # path) =>
            PrintT(<<"REPLAY", ToJson([cap |-> cap, connof |-> ConnOf, path |-> path',
-                    final |-> [permits |-> permits', table |-> table', closed |-> {k \in SubOps : sub'[k].sinks > 0 /\ ClosedP(k)}]])>>)
+                    final |-> [permits |-> permits', table |-> table', closed |-> {k \in SubOps : sub'[k].sinks > 0 /\ ClosedP(k)}],
+                    frames |-> IF QueueCap = 0 THEN <<>> ELSE [c \in Conns |-> wire'[c] \o queue'[c]]])>>)
 Next == Acts /\ EmitT
+NextSerial == Acts /\ SerialSteps /\ EmitT        \* (the filter comes before the emission: TLC evaluates conjuncts in order)
 Spec == Init /\ [][Next]_vars
 
 --------------------------------------------------------------------------------
